@@ -36,6 +36,13 @@ Accepted == <<
   B("nested", "func f(n int) int {\n\tr := 0\n\tfor i := 0; i < n; i++ {\n\t\tswitch i {\n\t\tcase 0:\n\t\t\tr += 1\n\t\tdefault:\n\t\t\tif i % 2 == 0 {\n\t\t\t\tr += i\n\t\t\t} else {\n\t\t\t\tr -= 1\n\t\t\t}\n\t\t}\n\t}\n\treturn r\n}\nprint(f(5))\n"),
   B("error", "var e error\nif e == nil {\n\te = \"failed\"\n}\nif e != nil {\n\tprint(e)\n}\n"),
   B("rawmultiline", "s := `first\n  second\n\nlast`\nprint(s, len(s))\nt := \"x\" + `\n`\nprint(t)\n"),
+  \* every kind of statement as the LAST thing in the file (the final-newline variants end the file right after it)
+  B("importonly", "import \"strings\"\n"), B("importaliasonly", "import h \"lib1.tsh\"\n"), B("importgrouponly", "import (\n\t\"strings\"\n\tm \"lib2.tsh\"\n)\n"),
+  B("lastvardecl", "a := 1\nprint(a)\nvar b int\n"), B("lastvardecl2", "var a, b int\n"), B("lastvarslice", "print(1)\nvar s []string\n"), B("lastvarvalue", "var a int = 5\n"),
+  B("lastincr", "a := 1\na++\n"), B("lastcompound", "a := 1\na += 2\n"), B("lastassign", "a, b := 1, 2\na, b = b, a\n"), B("lastsetidx", "s := []int{1}\ns[1] = 2\n"),
+  B("lastcall", "func f() {\n\tprint(1)\n}\nf()\n"), B("lastfunc", "func f() int {\n\treturn 1\n}\n"), B("lastif", "if true {\n\tprint(1)\n}\n"), B("lastelse", "if false {\n} else {\n\tprint(2)\n}\n"),
+  B("lastfor", "for i := 0; i < 1; i++ {\n}\n"), B("lastswitch", "switch 1 {\ncase 1:\n\tprint(1)\n}\n"), B("lastappcall", "@echo(\"x\")\n"), B("lastpipe", "o, e, c := @echo(\"x\") | @cat()\n"),
+  B("lastwrite", "write(\"f.txt\", \"x\")\n"), B("lastpanic", "panic(\"x\")\n"), B("lastdefcall", "func two() (int, int) {\n\treturn 1, 2\n}\na, b := two()\n"), B("laststring", "s := `raw`\n"), B("lastblockcomment", "a := 1 /* c */\n"),
   B("noeol", "a := 1\nprint(a)"),
   B("onlycomment", "// nothing here\n")
 >>
